@@ -15,6 +15,7 @@ import os
 import random
 import subprocess
 import sys
+import tempfile
 import time
 import traceback
 
@@ -162,8 +163,10 @@ class Violation(Exception):
 _process_history = []      # run indices this worker process has executed
 
 
-def _mark_dir():
-    return "/dev/shm/verif_marks_%d" % os.getppid()
+def _mark_dir(parent_pid=None):
+    base = "/dev/shm" if os.access("/dev/shm", os.W_OK) else \
+        tempfile.gettempdir()
+    return os.path.join(base, "verif_marks_%d" % (parent_pid or os.getppid()))
 
 
 def _worker_chunk(args):
@@ -177,17 +180,24 @@ def _worker_chunk(args):
             # a call stuck inside C code (no Python signal handler can run)
             # ends with this worker killed by the watchdog thread; the marker
             # tells the parent which run it was executing
-            os.makedirs(_mark_dir(), exist_ok=True)
-            mark = os.path.join(_mark_dir(), str(os.getpid()))
+            try:
+                os.makedirs(_mark_dir(), exist_ok=True)
+                mark = os.path.join(_mark_dir(), str(os.getpid()))
+            except OSError:
+                mark = None
         agg = dict(runs=0, nontrivial_digests=set(), all_digests=0, faults={},
                    probes={}, steps=0, ops=0, known={}, violations=[],
                    samples=[], states=set(), errors=[])
         for i in indices:
             rs = derive(seed, mod.ID, tier, i)
             _process_history.append(i)
-            if mark:
-                with open(mark, "w") as f_:
-                    f_.write(str(i))
+            if hard:
+                if mark:
+                    try:
+                        with open(mark, "w") as f_:
+                            f_.write(str(i))
+                    except OSError:
+                        pass
                 faulthandler.dump_traceback_later(hard, exit=True)
             try:
                 prog = mod.generate(rs, tier)
@@ -244,7 +254,7 @@ def _hard_hangs(mod, tier, seed):
     violation records for those that do not terminate there either."""
     import shutil
     out = []
-    d = "/dev/shm/verif_marks_%d" % os.getpid()
+    d = _mark_dir(os.getpid())
     hard = getattr(mod, "RUN_HARD_TIMEOUT", None)
     if not hard or not os.path.isdir(d):
         return out
@@ -377,8 +387,7 @@ def run_batch(mod, tier, seed, runs, wall, workers=None, chunk=None,
     finally:
         ex.shutdown(wait=not broken, cancel_futures=True)
         import shutil
-        shutil.rmtree("/dev/shm/verif_marks_%d" % os.getpid(),
-                      ignore_errors=True)
+        shutil.rmtree(_mark_dir(os.getpid()), ignore_errors=True)
     total["wall_s"] = time.time() - t0
     total["violations"].sort(key=lambda v: v["index"])
     return total
